@@ -33,10 +33,16 @@ package light
 //@   loop 1: invariant sampleCount == (old(sampleCount) > squareSize*squareSize ? squareSize*squareSize : old(sampleCount))
 
 // (crypto/rand.Int(max) is uniform on [0, max): assumed)
+//@ extern github.com/celestiaorg/celestia-node/share/availability/light.randInt
+//@   ensures 0 <= result && result < m
+// (body view: "drawn unpredictably" - the only source of randomness is crypto/rand.Int; nothing from math/rand,
+// no clock, no counter)
 //@ func randInt
 //@   property C03
-//@   trusted
-//@   ensures 0 <= result && result < m
+//@   noframe
+//@   only rand.: Int
+//@   only time.:
+//@   callpre rand.Int: true
 
 // A fresh sampling result owes min(sample count, square area) coordinates and has none available.
 //@ func NewSamplingResult
